@@ -96,7 +96,11 @@ Fixpoint first_typedef (rs : list ref) : option (option key) :=
   | [] => None
   | r :: t => match r_type r with
               | None => first_typedef t
-              | Some _ => if (r_tint r =? HasTypeDefinition) && r_fwd r then Some (option_map snd (r_target r))
+              | Some _ => if (r_tint r =? HasTypeDefinition) && r_fwd r
+                          then match r_target r with
+                               | Some tg => Some (Some (snd tg))
+                               | None => first_typedef t      (* a reference without node id is skipped (since the fix) *)
+                               end
                           else first_typedef t
               end
   end.
